@@ -67,8 +67,10 @@ StunShift(p) ==
              ch == { i \in 1..Len(a) : a[i][1] = ATTR_CHANGE }
          IN IF ~w.ok \/ \E i \in 1..Len(a) : a[i][2] % 4 # 0 THEN { 0, 1 }
             ELSE IF ch = {} THEN { 0 }
-            ELSE IF Cardinality(ch) = 1 /\ \A i \in ch : a[i][2] = 4
-                 THEN (IF \E i \in ch : (p[a[i][3] + 4] \div 2) % 2 = 1 THEN { 1 } ELSE { 0 })
+            ELSE IF \A i \in ch : a[i][2] = 4
+                 THEN (IF \A i \in ch : (p[a[i][3] + 4] \div 2) % 2 = 1 THEN { 1 }         \* every one asks for it
+                       ELSE IF \A i \in ch : (p[a[i][3] + 4] \div 2) % 2 = 0 THEN { 0 }    \* none does
+                       ELSE { 0, 1 })           \* contradictory attributes: either, but never further than the next port
                  ELSE { 0, 1 }
 
 (* messages that are not binding requests: other classes, other methods *)
